@@ -153,10 +153,17 @@ func (q *QueueProxy) Remove(num uint) (operation.QueuedOperationsAtTime, func() 
 	q.compare("after Remove")
 
 	taken := got
+	acked, nacked := false, false
 
 	return ops,
 		func() uint {
 			q.K.Yield(q.Label + ".ack")
+
+			if nacked {
+				q.fail("ack-after-nack", "a removal that was rolled back (nack) was then committed (ack): "+keys(taken))
+			}
+
+			acked = true
 
 			n := ack()
 			q.K.Tr.Logf("  %s q.ack %s -> pending %d", q.K.Cur(), keys(taken), n)
@@ -177,6 +184,14 @@ func (q *QueueProxy) Remove(num uint) (operation.QueuedOperationsAtTime, func() 
 		},
 		func(e error) {
 			q.K.Yield(q.Label + ".nack")
+
+			if acked {
+				// the interface contract: ack commits the removal, nack rolls it back - never both. (With the in-memory
+				// queue the second call happens to restore the items; with a durable queue they would be gone.)
+				q.fail("nack-after-ack", "a removal that was committed (ack) was then rolled back (nack): "+keys(taken))
+			}
+
+			nacked = true
 
 			nack(e)
 			q.K.Tr.Logf("  %s q.nack %s", q.K.Cur(), keys(taken))
